@@ -26,7 +26,8 @@ package treemap
 //@   at after Put#1: pnew := res_pnew
 //@   ghostresult pnew int
 //@   ensures [C01 C02 C17] Inv(m) && Config(m)
-//@   ensures [C01 C02] at: 0 <= pnew && pnew < N(m) && m.tree.Comparator(key, KeyAt(m, pnew)) == 0 && ValAt(m, pnew) == value
+//@   ensures owners: forall x like m.tree.Root :: fresh(x) ==> x.tr == m.tree || x.tr == nil
+//@   ensures [C01 C02] at: 0 <= pnew && pnew < N(m) && m.tree.Comparator(key, KeyAt(m, pnew)) == 0 && ValAt(m, pnew) == value && KeyAt(m, pnew) == key
 //@   ensures [C01 C02] replaced: old(Has(m, key)) ==> N(m) == old(N(m))
 //@     && (forall i :: 0 <= i && i < N(m) && i != pnew ==> KeyAt(m, i) == old(KeyAt(m, i)) && ValAt(m, i) == old(ValAt(m, i)))
 //@   ensures [C01 C02] inserted: !old(Has(m, key)) ==> N(m) == old(N(m)) + 1
@@ -264,4 +265,31 @@ package treemap
 //@   loop 1:
 //@     invariant ItInv(iterator) && iterator.iterator.tree == m.tree && fresh(iterator) && fresh(iterator.iterator)
 //@     invariant forall j :: 0 <= j && j <= Cur(iterator) && j < N(m) ==> !f(KeyAt(m, j), ValAt(m, j))
+//@     decreases N(m) - Cur(iterator)
+
+// ---- Select / Map (C14) ----
+
+//@ func Map.Select
+//@   requires Inv(m) && f != nil
+//@   modifies nothing
+//@   assert backedge 1: forall k like argof(m.tree.Comparator, 0) :: m.tree.Comparator(k, KeyAt(m, Cur(iterator))) == 0 ==> m.tree.rank[k] == Cur(iterator)
+//@   assert backedge 1: forall k like argof(m.tree.Comparator, 0) :: m.tree.Comparator(k, KeyAt(m, Cur(iterator))) == 0 ==> Has(m, k)
+//@   ensures [C14 C16 C17 C18] fresh(result) && Inv(result) && fresh(result.tree) && result.tree.Comparator == m.tree.Comparator
+//@   ensures [C14] entries: forall k like argof(m.tree.Comparator, 0) :: (Has(result, k) <==> Has(m, k) && f(KeyAt(m, m.tree.rank[k]), ValAt(m, m.tree.rank[k]))) && (Has(result, k) ==> Val(result, k) == Val(m, k))
+//@   loop 1:
+//@     invariant ItInv(iterator) && iterator.iterator.tree == m.tree && fresh(iterator) && fresh(iterator.iterator) && fresh(newMap) && Inv(newMap) && fresh(newMap.tree) && newMap.tree.Comparator == m.tree.Comparator
+//@     invariant forall x like m.tree.Root :: fresh(x) ==> x.tr == newMap.tree || x.tr == nil
+//@     invariant forall k like argof(m.tree.Comparator, 0) :: (Has(newMap, k) <==> Has(m, k) && m.tree.rank[k] <= Cur(iterator) && f(KeyAt(m, m.tree.rank[k]), ValAt(m, m.tree.rank[k]))) && (Has(newMap, k) ==> Val(newMap, k) == Val(m, k))
+//@     decreases N(m) - Cur(iterator)
+
+//@ -- Map: the result (same comparator) holds every mapped key
+//@ func Map.Map
+//@   requires Inv(m) && f != nil
+//@   modifies nothing
+//@   ensures [C14 C16 C17 C18] fresh(result) && Inv(result) && fresh(result.tree) && result.tree.Comparator == m.tree.Comparator && N(result) <= N(m)
+//@   ensures [C14] all: forall j :: 0 <= j && j < N(m) ==> Has(result, fst(f(KeyAt(m, j), ValAt(m, j))))
+//@   loop 1:
+//@     invariant ItInv(iterator) && iterator.iterator.tree == m.tree && fresh(iterator) && fresh(iterator.iterator) && fresh(newMap) && Inv(newMap) && fresh(newMap.tree) && newMap.tree.Comparator == m.tree.Comparator && N(newMap) <= min(Cur(iterator) + 1, N(m))
+//@     invariant forall x like m.tree.Root :: fresh(x) ==> x.tr == newMap.tree || x.tr == nil
+//@     invariant forall j :: 0 <= j && j <= Cur(iterator) && j < N(m) ==> Has(newMap, fst(f(KeyAt(m, j), ValAt(m, j))))
 //@     decreases N(m) - Cur(iterator)
